@@ -32,7 +32,10 @@ CLAIM = {
              "Not proved: acceptance of rows that carry both a conversion and a non-zero charge, and rows with a non-zero "
              "charge at all - the full statement C16_accepts_full is kept as a Prop and refuted by a concrete witness "
              "(F19: a non-zero charge yields an unbalanced transaction); necessity of 'positive rate / exact quotient' "
-             "for compute mode is shown by witness only. The model is tied to "
+             "for compute mode is shown by witness only. The inconsistent-conversion class is a genuine defect of the "
+             "importer with respect to the acceptance clause (known finding F33: compute / price_of_secondary at rate 3 "
+             "prints 16.666...667 EUR @ 3 USD against -50.00 USD, rejected by the real book-keeping; replayed on every run). "
+             "The model is tied to "
              "cli/src/import/csv.rs by running generated CSV x configuration cases through the real importer and diffing "
              "the transaction trees, and the property's statement (sign, counter-posting, rate placement, order, acceptance "
              "by the real report::process and final balance) is evaluated on the real output by a Python oracle that does "
@@ -41,7 +44,7 @@ CLAIM = {
             "(decoded by the real libraries in the harness); rust_decimal is modelled exactly inside 96 bits / 28 places; "
             "the acceptance theorems are about the printed ledger alone (no commodity directive, hence no rounding in "
             "check_balance); with a declared precision okane also accepts conversions that agree after rounding.",
-    "design_ref": "DESIGN.md section 6, C16; section 7, F19",
+    "design_ref": "DESIGN.md section 6, C16; section 7, F19; section 10.4, F33",
 }
 
 THEOREMS = ["Okane.Import.C16_sign_credit_debit", "Okane.Import.C16_sign_amount", "Okane.Import.C16_counter_plain",
@@ -606,16 +609,19 @@ def run(chk):
         return
     rng = chk.rng
     # ---------------- known finding F19: replay the recorded witness on the real code
+    kf_what = {"F19": "CSV import with a non-zero `charge` column prints an unbalanced transaction; okane's own "
+                      "book-keeping rejects it (%s)",
+               "F33": "CSV import of a converted row whose figures are not exactly consistent (compute / price_of_secondary, "
+                      "-50.00 USD at rate 3) prints an unbalanced transaction; okane's own book-keeping rejects it (%s)"}
     for kf in chk.known:
-        if kf["id"] == "F19":
+        if kf["id"] in kf_what:
             w = kf["witness"]
             out = run_sharded(HX, ["c16"], ["kf cfg=%s src=%s fund=%s" % (enc(w["config_yaml"]), enc(w["csv"]), enc(w["fund"]))], 1)
             _, f = split_fields(out[0])
             p = parse_proc_impl(f.get("proc", "-"))
             if p[0] == "err" and p[2] == "UnbalancedPostings":
-                chk.known_finding("F19", "CSV import with a non-zero `charge` column prints an unbalanced transaction; okane's own "
-                                  "book-keeping rejects it (%s)" % f.get("proc"))
-            chk.streams["known-finding-replays"] = 1
+                chk.known_finding(kf["id"], kf_what[kf["id"]] % f.get("proc"))
+            chk.streams["known-finding-replays"] = chk.streams.get("known-finding-replays", 0) + 1
     # ---------------- main stream
     cases = build_cases(chk)
     mal = malformed_cases(chk)
